@@ -114,14 +114,16 @@ def Value.doExec (cx : VCtx) (v : Value) (fn : Bytes) : Option (VM Value) :=
   else if name == "hash160" then some (.ok { v with data := cx.ripemd160 (cx.sha256 v.dataValue), type := .T_DATA })
   else if name == "prefix_compact_size" then
     some (.ok { v with data := compactSize v.dataValue.length ++ v.dataValue, type := .T_DATA })
+  else if name == "len" then some (.ok { v with int64 := v.dataValue.length, type := .T_INT })
   else none
 
 def knownInline : List String :=
-  ["echo", "hex", "int", "reverse", "sha256", "ripemd160", "hash256", "hash160", "prefix_compact_size"]
+  ["echo", "hex", "int", "reverse", "sha256", "ripemd160", "hash256", "hash160", "prefix_compact_size", "len"]
 /-- every name `do_exec` accepts in a build without ENABLE_DANGEROUS -/
 def allInline : List String :=
   knownInline ++ ["base58chkenc", "base58chkdec", "bech32enc", "bech32dec", "verify_sig", "combine_pubkeys", "tweak_pubkey",
-    "pubkey_to_xpubkey", "addr_to_spk", "spk_to_addr", "add", "sub", "jacobi", "tagged_hash", "taproot_tweak_pubkey"]
+    "pubkey_to_xpubkey", "addr_to_spk", "spk_to_addr", "add", "sub", "jacobi", "tagged_hash", "taproot_tweak_pubkey",
+    "bech32menc", "verify_sig_compact", "b32e", "b32me", "b32d", "b58ce", "b58cd", "jacobi_sym"]
 
 /-- the tail of the constructor: number, opcode, hex, else string.  `cur` is the value built so far
     (after a failed function call it is the inner value: fields that are not overwritten are kept). -/
